@@ -360,26 +360,32 @@ def run_lifecycle(shard, res, h, valid, only):
                 drv.call_server(srv, valid, charset='utf-8')
                 perm.append((app, srv))
             stale = {}
+            stale_seq = {}
             for app, srv in perm:
                 for an, v in vars(app.in_protocol).items():
                     if isinstance(v, dict):
                         stale.setdefault(an, set()).add(id(v))
+                        stale_seq.setdefault(an, []).append(id(v))
             del perm, app, srv
             gc.collect()
             keep = []
             candidates = 0
+            per_attr = {}
             for j in range(nd * 100):
                 inp = harness.make_proto(proto, None)
                 # every instance among the first nd is attacked; after that only those one of whose dict attributes lives
                 # where the same attribute of a discarded permissive instance lived (process-wide state keyed by identity)
-                reused = any(isinstance(v, dict) and id(v) in stale.get(an, ()) for an, v in vars(inp).items())
-                if j >= nd and not reused:
-                    keep.append(inp)
-                    continue
+                reused = sorted(an for an, v in vars(inp).items() if isinstance(v, dict) and id(v) in stale.get(an, ()))
                 if j >= nd:
+                    # (at most 40 candidates per reused attribute: one attribute that is reused often must not use up
+                    # the budget of the others)
+                    reused = [an for an in reused if per_attr.get(an, 0) < 40]
+                    if not reused:
+                        keep.append(inp)
+                        continue
+                    for an in reused:
+                        per_attr[an] = per_attr.get(an, 0) + 1
                     candidates += 1
-                    if candidates > 40:
-                        break
                 app = spec.make_app(b, inp, harness.make_proto(proto))
                 srv = drv.make_server(app)
                 keep.append((app, srv))
@@ -399,6 +405,47 @@ def run_lifecycle(shard, res, h, valid, only):
                                                   'case': {'shard': shard, 'only': key}, 'count': 1})
                     else:
                         res['nontrivial'] += 1
+            # Where a new object lands is the allocator's choice, i.e. nondeterminism the scan above only samples.  It is
+            # therefore also taken over: id() is wrapped so that the dict attributes of a new default instance report the
+            # identity of the same attribute of a DEAD permissive instance - an outcome CPython may produce at any time.
+            # Scenarios: all such attributes at once (oldest / newest permissive instance), and each attribute alone.
+            import builtins
+            real_id = builtins.id
+            scenarios = []
+            names = sorted(stale_seq)
+            for pick in (0, -1):
+                scenarios.append(('all:%d' % pick, {an: stale_seq[an][pick] for an in names}))
+            for an in names:
+                scenarios.append((an, {an: stale_seq[an][-1]}))
+            for sname, wanted in scenarios:
+                inp = harness.make_proto(proto, None)
+                alias = {real_id(v): wanted[an] for an, v in vars(inp).items() if isinstance(v, dict) and an in wanted}
+                if not alias:
+                    continue
+                builtins.id = lambda o, alias=alias, real_id=real_id: alias.get(real_id(o), real_id(o))
+                try:
+                    app = spec.make_app(b, inp, harness.make_proto(proto))
+                    srv = drv.make_server(app)
+                    keep.append((app, srv))
+                    for kind, data in sorted(by_kind.items()):
+                        mon.reset()
+                        b.rec.reset()
+                        b.rec.script['m'] = ('ret', 'fine')
+                        o = drv.call_server(srv, data, charset='utf-8')
+                        res['evaluations'] += 1
+                        hay = ' '.join(_strings([c[1] for c in b.rec.calls])) + ' ' + (o.out or b'').decode('utf8', 'replace')
+                        nfile = mon.ino.drain()
+                        if mon.token in hay or nfile:
+                            res['violations'].append({'sig': 'C17|lifecycle-identity|%s|%s' % (proto, kind),
+                                                      'what': '[%s] after %d permissive protocol instances were used and discarded, a default-configured instance whose '
+                                                              'attribute(s) %s have the identity of the same attribute of a discarded instance expanded the %s (canary file '
+                                                              'opened %d times; token in arguments/response: %s)' % (proto, np, sorted(wanted), kind, nfile, mon.token in hay),
+                                                      'case': {'shard': shard, 'only': key}, 'count': 1})
+                        else:
+                            res['nontrivial'] += 1
+                finally:
+                    builtins.id = real_id
+                res['cov']['lifecycle_identity_scenarios'] = res['cov'].get('lifecycle_identity_scenarios', 0) + 1
             res['cov']['lifecycle_identity_reuse_candidates'] = res['cov'].get('lifecycle_identity_reuse_candidates', 0) + candidates
             res['outcomes']['lifecycle'] = res['outcomes'].get('lifecycle', 0) + 1
             res['cov']['lifecycle_histories'] = res['cov'].get('lifecycle_histories', 0) + 1
